@@ -6,8 +6,8 @@
   lanes.py clean                 remove the lanes
 
 A lane = a git worktree of /repo's HEAD at /tmp/lane<i>/repo plus a copy of the harness manifest at
-/tmp/lane<i>/verif/harness whose path dependency points at that worktree and whose src is a symlink to
-/verif/harness/src. Results are appended to the meta.json of each change by tools/seeded.py.
+/tmp/lane<i>/verif/harness whose path dependency points at that worktree and whose src is a copy of
+/verif/harness/src taken when the run starts. Results are appended to the meta.json of each change by tools/seeded.py.
 """
 import json, os, subprocess, sys, threading, queue, shutil
 
@@ -18,11 +18,15 @@ def setup(i):
     L = f"/tmp/lane{i}"
     if os.path.exists(L):
         sh(f"git -C {L}/repo checkout -- . ; git -C {L}/repo checkout -q --detach $(git -C /repo rev-parse HEAD)")
+        h = f"{L}/verif/harness"
+        if os.path.islink(f"{h}/src"):
+            os.unlink(f"{h}/src")
+        sh(f"rsync -a --delete /verif/harness/src/ {h}/src/")
         return L
     os.makedirs(f"{L}/verif/harness")
     sh(f"git -C /repo worktree add -q --detach {L}/repo HEAD")
     h = f"{L}/verif/harness"
-    os.symlink("/verif/harness/src", f"{h}/src")
+    sh(f"rsync -a --delete /verif/harness/src/ {h}/src/")  # a copy: the harness may be edited while a matrix runs
     shutil.copy("/verif/harness/Cargo.lock", h)
     shutil.copytree("/verif/harness/.cargo", f"{h}/.cargo")
     t = open("/verif/harness/Cargo.toml").read().replace('path = "/repo"', f'path = "{L}/repo"')
